@@ -98,6 +98,34 @@ func cUnescape(s string) ([]byte, error) {
 	return out, nil
 }
 
+// cEscape is absl::CEscape.
+func cEscape(b []byte) string {
+	var sb strings.Builder
+	for _, c := range b {
+		switch c {
+		case '\n':
+			sb.WriteString(`\n`)
+		case '\r':
+			sb.WriteString(`\r`)
+		case '\t':
+			sb.WriteString(`\t`)
+		case '"':
+			sb.WriteString(`\"`)
+		case '\'':
+			sb.WriteString(`\'`)
+		case '\\':
+			sb.WriteString(`\\`)
+		default:
+			if c >= 0x20 && c < 0x7f {
+				sb.WriteByte(c)
+			} else {
+				fmt.Fprintf(&sb, "\\%03o", c)
+			}
+		}
+	}
+	return sb.String()
+}
+
 func parseFloatDefault(s string) (float64, error) {
 	switch s {
 	case "inf":
@@ -153,12 +181,9 @@ func normalizeDefaults(got, want []*descriptorpb.FieldDescriptorProto) error {
 				w.DefaultValue = proto.String(d[6:])
 				continue
 			}
-			dec, err := cUnescape(g.GetDefaultValue())
-			if err == nil && string(dec) == d[6:] {
-				w.DefaultValue = proto.String(g.GetDefaultValue())
-			} else {
-				w.DefaultValue = proto.String(d[6:])
-			}
+			// protoc writes bytes defaults with absl::CEscape: \n \r \t \" \' \\ as two characters, other
+			// bytes outside 0x20..0x7e as three octal digits (pinned by desc_test_defaults.protoset)
+			w.DefaultValue = proto.String(cEscape([]byte(d[6:])))
 		}
 	}
 	return nil
@@ -262,7 +287,14 @@ func c02Check(c wsCase, r *ev.Rec) error {
 
 func TestC02_Generated(t *testing.T) {
 	ev.Run(t, ev.Spec[wsCase]{ID: "C02", Name: "Generated", Quick: 1200, Thorough: 60000,
-		Rule: "valid-by-construction workspaces (1-4 files; proto2/proto3/edition 2023; nested messages, all scalar types, message/enum references, maps, groups, oneofs, proto3 optional, defaults in several literal spellings, json_name, packed/deprecated/jstype/java_package/optimize_for/allow_alias/idempotency options, editions features at file/field/enum level, extension ranges and extensions, reserved ranges and names, services); oracle: each compiled FileDescriptorProto (source info dropped) equals the descriptor an independent reference builder derives from the model with protoc's rules (json_name, map entries, synthetic oneofs, groups, absolute type names, range ends, label/type encoding pinned by the goldens); float defaults compared by value and bytes defaults by decoding; non-trivial = has a resolved type reference plus options/defaults or several files; distinct by file texts",
-		Gen:  func(t *rapid.T) wsCase { return newWSCase(gen.GenWorkspace(t, gen.Config{})) },
+		Rule: "valid-by-construction workspaces (1-4 files; proto2/proto3/edition 2023; nested messages, all scalar types, message/enum references, maps, groups, oneofs, proto3 optional, defaults in several literal spellings, json_name, packed/deprecated/jstype/java_package/optimize_for/allow_alias/idempotency options, editions features at file/field/enum level, extension ranges and extensions, reserved ranges and names, services); oracle: each compiled FileDescriptorProto (source info dropped) equals the descriptor an independent reference builder derives from the model with protoc's rules (json_name, map entries, synthetic oneofs, groups, absolute type names, range ends, label/type encoding pinned by the goldens); references are spelled with any spelling the scoping reference model (C15) maps to the target; float defaults compared by value, bytes defaults against absl::CEscape text; non-trivial = has a resolved type reference plus options/defaults or several files; distinct by file texts",
+		Gen: func(t *rapid.T) wsCase {
+			ws := gen.GenWorkspace(t, gen.Config{})
+			if rapid.IntRange(0, 9).Draw(t, "relative") < 7 {
+				// spell references relatively / partially qualified, as the scoping model allows
+				gen.RespellRefs(t, ws)
+			}
+			return newWSCase(ws)
+		},
 		Check: c02Check})
 }
